@@ -125,10 +125,16 @@ def one_hash(ctx, r, txn):
     size_f = [f["name"] for f in fields if prog.ty_str(f["ty"]) == "u64"]
     hasher_f = [f["name"] for f in fields if "blake3::Hasher" in prog.ty_str(f["ty"])]
     hash_ty = ctx.anchors.get("HASH")
-    for pub in ctx.sem_sites("BLOB_PUBLISH"):
-        b = pub.body
-        if b.argc < 1 or prog.adt_of(b.locals[1])[0] != txn:
+    from .c06 import rooted_in_txn_field, leaf_root_adt
+    done = set()
+    for chain in ctx.sem_chains("BLOB_PUBLISH"):
+        # the frame that both registers the intent and (directly or through callees) publishes
+        pub = ctx.deepest_frame(chain, lambda body: any(
+            "INTENT_ADD" in sem_set(ctx.may.site_events(s)) and prog.local_target(s) is not None for s in body.calls()))
+        if pub.key() in done:
             continue
+        done.add(pub.key())
+        b = pub.body
         sl = Slicer(ctx.world, b)
         regs = [s for s in b.calls() if "INTENT_ADD" in sem_set(ctx.may.site_events(s)) and prog.local_target(s) is not None
                 and b.dominates(s.bb, pub.bb) and s.bb != pub.bb]
@@ -141,13 +147,13 @@ def one_hash(ctx, r, txn):
                     continue
                 ty = ctx.world._place_ty(b, pl)
                 if prog.adt_of(ty)[0] == hash_ty:
-                    res |= sl.leaves_of_operand(a)
+                    res |= sl.leaves_up(a, depth=5)
                 else:
                     d, _ = prog.adt_of(ty)
                     if d in prog.adts and prog.types[prog.strip_refs(ty)].get("k") == "adt":
                         for f in prog.adts[d]["variants"][0]["fields"]:
                             if prog.adt_of(f["ty"])[0] == hash_ty:
-                                res |= sl.leaves_of_operand(a, path=(f["name"],))
+                                res |= sl.leaves_up(a, path=(f["name"],), depth=5)
             return res
 
         def size_args(site):
@@ -161,7 +167,7 @@ def one_hash(ctx, r, txn):
                 if d in prog.adts and prog.types[prog.strip_refs(ty)].get("k") == "adt":
                     for f in prog.adts[d]["variants"][0]["fields"]:
                         if prog.ty_str(f["ty"]) == "u64":
-                            res |= sl.leaves_of_operand(a, path=(f["name"],))
+                            res |= sl.leaves_up(a, path=(f["name"],), depth=5)
             return res
         hp = hash_args(pub)
         fin = lambda lv: bool(lv) and all(l[0] == "call" and l[1] == "blake3::Hasher::finalize" for l in lv) and len(lv) == 1
@@ -174,14 +180,17 @@ def one_hash(ctx, r, txn):
                     "the hash registered at %s (%s) is not the value that names the file (%s)" % (
                         site_where(reg), sorted(fmt_leaf(l) for l in hr), sorted(fmt_leaf(l) for l in hp)), site_where(reg))
             sz = size_args(reg)
-            r.check(bool(sz) and all(l[0] == "param" and l[1] == 1 and l[2] and l[2][-1] == size_f[0] for l in sz), "intent-size", b,
+            oks = bool(sz) and all(l[0] in ("param", "xparam") and leaf_root_adt(prog, b, l) == txn and
+                                   l[2] and l[2][-1] == size_f[0] for l in sz)
+            r.check(oks, "intent-size", b,
                     "the size registered is the transaction's byte counter",
                     "the size registered at %s has origins %s" % (site_where(reg), sorted(fmt_leaf(l) for l in sz)), site_where(reg))
         # finalize is called on the transaction's own hasher
         for l in hp:
             if l[0] == "call":
-                t = b.blocks[l[2]]["term"]
-                r.check(ctx.world.recv_field(b, t["args"][0]) == ("F", txn, hasher_f[0]), "own-hasher", b,
+                t = sl.call_at(l[2])
+                inner = sl.at(l[2]).leaves_up(t["args"][0], depth=5)
+                r.check(rooted_in_txn_field(ctx, sl.at(l[2]), inner, txn, "blake3::Hasher"), "own-hasher", b,
                         "finalize() is called on the transaction's own hasher", "finalize() is called on another hasher")
 
 
